@@ -147,6 +147,19 @@ def _label_ok(l):
     return all(c >= 32 and c != 127 and c != 0x2E and c != 0x5C for c in l)
 
 
+PTR_TARGETS = []  # every pointer target followed by ref_cname since it was last cleared (used to recognise names read through the header)
+
+
+def has_header_pointer(p):
+    """True when some name of the accepted packet p is read through bytes of the 12-byte header."""
+    del PTR_TARGETS[:]
+    try:
+        decode_ref(p)
+    except (Reject, IndexError):
+        return False
+    return any(t < 12 for t in PTR_TARGETS)
+
+
 def ref_cname(p, off):
     """A (possibly compressed) name at off. Returns (labels, wire_end, hops)."""
     n = len(p)
@@ -172,6 +185,7 @@ def ref_cname(p, off):
                 raise Reject("pointer to a root label")
             if end is None:
                 end = off + 2
+            PTR_TARGETS.append(t)
             bar, low, off = low, t, t
             continue
         if b > 63:
@@ -610,6 +624,29 @@ def boundary_family(rng):
     # name 254/255/256 wire bytes
     for n in (253, 254, 255, 256, 257):
         out.append(H(1) + Q + rr(wire_name(name_of_wire_len(n)), 1, b"\1\2\3\4"))
+    # the same two limits in every position a name can take: question, owner, NS/CNAME/PTR, MX, SOA (both names), DNAME
+    def in_position(pos, nw):
+        if pos == "question":
+            return struct.pack(">HHHHHH", 1, 0x0100, 1, 0, 0, 0) + nw + struct.pack(">HH", 1, 1)
+        if pos == "owner":
+            return H(1) + Q + rr(nw, 16, b"\3abc")
+        if pos == "ns":
+            return H(1) + Q + rr(ptr, rng.choice(NAME_TYPES), nw)
+        if pos == "mx":
+            return H(1) + Q + rr(ptr, 15, b"\0\5" + nw)
+        if pos == "soa1":
+            return H(1) + Q + rr(ptr, 6, nw + ptr + bytes(range(20)))
+        if pos == "soa2":
+            return H(1) + Q + rr(ptr, 6, ptr + nw + bytes(range(20)))
+        return H(1) + Q + rr(ptr, 39, nw)
+    for pos in ("question", "owner", "ns", "mx", "soa1", "soa2", "dname"):
+        for n in (253, 254, 255, 256, 257):
+            out.append(in_position(pos, wire_name(name_of_wire_len(n))))
+        for l in (62, 63, 64):
+            out.append(in_position(pos, bytes([l]) + b"a" * l + b"\3com\0"))
+        if pos != "dname":
+            for n in (242, 243, 244):
+                out.append(in_position(pos, wire_name(name_of_wire_len(n))[:-1] + ptr))
     # name 255 reached through a pointer (labels + pointed-to suffix)
     for n in (242, 243, 244):
         out.append(H(1) + Q + rr(wire_name(name_of_wire_len(n))[:-1] + ptr, 1, b"\1\2\3\4"))
